@@ -153,7 +153,7 @@ func genC32(g *Gen) {
 		for i := 0; i < length; i++ {
 			ops++
 			r := g.R
-			switch r.Pick(22, 5, 7, 16, 4, 12, 7, 3, 6, 3, 1, 5, 5, 4) {
+			switch r.Pick(22, 5, 7, 16, 4, 12, 7, 3, 6, 3, 1, 5, 5, 4, 2) {
 			case 0:
 				p, k := c.pend()
 				c.noteBind(k)
@@ -252,6 +252,32 @@ func genC32(g *Gen) {
 				g.Op("now", "%d", c.now)
 			case 12:
 				c.genConc()
+			case 14:
+				// directed: attempts in flight across a Reset come back with their stale tokens after
+				// the same identity was delivered again the same number of times
+				uid, sess, msg := c.key()
+				k := fmt.Sprintf("%s,%d,%d", uid, sess, msg)
+				g.Count("scenario:stale-token-across-reset")
+				m := 1 + r.Intn(2)
+				if r.Chance(60) {
+					g.Op("reset", "")
+				}
+				for j := 0; j < m; j++ {
+					c.noteBind(k)
+					g.Op("bind", "%s", c.pendFor(uid, sess, msg))
+				}
+				g.Op("reset", "")
+				c.last = map[string][]int{}
+				for j := 0; j < m; j++ {
+					c.noteBind(k)
+					g.Op("bind", "%s", c.pendFor(uid, sess, msg))
+				}
+				kind := []string{"cancel", "finish"}[r.Intn(2)]
+				g.Op(kind, "%s %%%d", c.pendFor(uid, sess, msg), r.Intn(m))
+				g.Op("finish", "%s ^0", c.pendFor(uid, sess, msg))
+				g.Op("ack", "%s %d %d", Hex([]byte(uid)), sess, msg)
+				delete(c.last, k)
+				ops += 4
 			default:
 				// directed: deliver, (commit), re-deliver the same identity, roll the re-delivery back
 				uid, sess, msg := c.key()
@@ -343,9 +369,10 @@ func (c *c32Gen) genConc() {
 // ------------------------------------------------------------------- runner
 
 type c32Runner struct {
-	t   *delivery.AckTracker
-	now int64
-	mu  sync.Mutex
+	t    *delivery.AckTracker
+	now  int64
+	mu   sync.Mutex
+	mark uint64 // allocator value when Reset was last called (tokens <= mark predate it)
 }
 
 func newC32Runner() *c32Runner {
@@ -452,6 +479,16 @@ func (r *c32Runner) exec(f []string, own map[int]uint64) string {
 			}
 			return delivery.VerifAckToken(own[j]), true // a missing reference is the zero token
 		}
+		if strings.HasPrefix(s, "%") { // the token issued n binds before the last Reset
+			n, err := strconv.ParseUint(s[1:], 10, 64)
+			if err != nil || own != nil {
+				return delivery.AckBindToken{}, false
+			}
+			if n >= r.mark {
+				return delivery.AckBindToken{}, true
+			}
+			return delivery.VerifAckToken(r.mark - n), true
+		}
 		if strings.HasPrefix(s, "^") { // the n-th most recently issued token
 			n, err := strconv.ParseUint(s[1:], 10, 64)
 			if err != nil || own != nil {
@@ -480,6 +517,7 @@ func (r *c32Runner) exec(f []string, own map[int]uint64) string {
 			return "bad-op"
 		}
 		r.t = delivery.NewAckTracker(delivery.AckTrackerOptions{ShardCount: int(s), MaxPendingPerSession: int(m), Now: r.clock})
+		r.mark = 0
 		return "ok"
 	case "now":
 		if len(f) != 2 {
@@ -622,6 +660,7 @@ func (r *c32Runner) exec(f []string, own map[int]uint64) string {
 		if len(f) != 1 {
 			return "bad-op"
 		}
+		r.mark = delivery.VerifAckNext(r.t)
 		r.t.Reset()
 		return "ok"
 	}
@@ -673,7 +712,7 @@ func (r *c32Runner) conc(threads []string) string {
 					return "bad-op"
 				}
 				s := w[2]
-				if strings.HasPrefix(s, "^") {
+				if strings.HasPrefix(s, "^") || strings.HasPrefix(s, "%") {
 					return "bad-op"
 				}
 				if strings.HasPrefix(s, "$") {
